@@ -193,9 +193,14 @@ func (tc *TypeConverter) TypeToExpr(t types.Type) ast.Expr {
 		case types.RecvOnly:
 			dir = ast.RECV
 		}
+		elemExpr := tc.TypeToExpr(typ.Elem())
+		if elem, ok := typ.Elem().(*types.Chan); ok && typ.Dir() == types.SendRecv && elem.Dir() == types.RecvOnly {
+			// chan (<-chan T) needs its parentheses: chan <-chan T is read as chan<- (chan T)
+			elemExpr = &ast.ParenExpr{X: elemExpr}
+		}
 		return &ast.ChanType{
 			Dir:   dir,
-			Value: tc.TypeToExpr(typ.Elem()),
+			Value: elemExpr,
 		}
 	case *types.Struct:
 		fields := make([]*ast.Field, 0, typ.NumFields())
